@@ -580,6 +580,22 @@ def machine(col, seed, n_examples, steps):
                 self.dirty = True
                 col.label("op:mutate-input")
 
+        @rule(key=st.sampled_from(keys), i=st.integers(0, 11), op=st.sampled_from(["unmarshal", "unmarshal", "marshal"]), how=st.integers(0, 5))
+        def call_mutate_same_call(self, key, i, op, how):
+            """a call, its result edited in place by the caller (deep inside, too), the very same call again: what the second
+            call returns is what a cold process returns"""
+            srcs = TYPES[key][1] if op == "marshal" else TYPES[key][2] + TYPES[key][1]
+            src = srcs[i % len(srcs)]
+            col.label("op:call-mutate-same-call")
+            n = len(self.live_results)
+            self._call(op, key, eval(src, pool()), src)  # noqa: S307
+            if self.live_results and (len(self.live_results) > n or n == 12):
+                name, obj = self.live_results[-1]
+                if deep_mutate(obj, how):
+                    self.hist.append(["mutate-result", name, how])
+                    self.dirty = True
+            self._call(op, key, eval(src, pool()), src)  # noqa: S307
+
         @rule(g=st.integers(0, len(PARTNERS) - 1), flip=st.booleans(), op=st.sampled_from(["marshal", "unmarshal", "encode"]), i=st.integers(0, 7))
         def both_of_a_pair(self, g, flip, op, i):
             """the two members of an equal-but-distinct / base-and-subclass pair, one straight after the other"""
@@ -656,11 +672,15 @@ def machine(col, seed, n_examples, steps):
             r1 = _run(op, key, x)
             r2 = _run(op, key, x)
             col.ev()
+            # these two calls are part of the history like any other: they build (and leave behind) the routines of `key`
+            if r1[0] != "skip":
+                self.hist.append([op, key, src])
+                self.hist.append([op, key, src])
+                self.used_since_clear.add(key)
             if r1[0] == "ok" and r2[0] == "ok" and op == "marshal":
                 shared = set(mutable_ids(r1[2])) & set(mutable_ids(r2[2]))
                 own = {id(r1[2])} & {id(r2[2])} if isinstance(r1[2], (list, dict, set)) else set()
                 if own or (shared and not key.endswith("(bare)")):
-                    self.hist.append([op, key, src])
                     col.violation("no-shared-mutable-state", {"history": [list(h) for h in self.hist], "twice": True},
                                   f"{op}({key}, x) called twice with ONE input object x = {src}: the two results are (or share) one mutable container",
                                   bucket=f"{op}|{key}|same-object-twice", size=len(self.hist))
